@@ -30,6 +30,7 @@ class PathSum:
         self.returns = False
         self.raises = None
         self.calls = []       # source of other calls executed as statements
+        self.effects = []     # (receiver source, method name, [symbolic positional args], {keyword: symbolic arg}) of those calls
         self.locals = {}
 
     def clone(self):
@@ -39,6 +40,7 @@ class PathSum:
         p.order = list(self.order)
         p.appends = {k: list(v) for k, v in self.appends.items()}
         p.calls = list(self.calls)
+        p.effects = list(self.effects)
         p.locals = dict(self.locals)
         return p
 
@@ -132,6 +134,12 @@ class Summarizer:
                     self._store(p, a, APPEND(cur, x))
                     continue
                 p.calls.append(norm_src(v))
+                if isinstance(v, ast.Call) and isinstance(v.func, ast.Attribute):
+                    try:
+                        p.effects.append((norm_src(v.func.value), v.func.attr, [self.tr(a, p) for a in v.args],
+                                          {k.arg: self.tr(k.value, p) for k in v.keywords}))
+                    except Untranslatable:
+                        p.effects.append((norm_src(v.func.value), v.func.attr, None, None))
                 continue
             if isinstance(s, ast.Assign):
                 val = self.tr(s.value, p)
@@ -162,6 +170,22 @@ class Summarizer:
                 return
             if isinstance(s, ast.Pass):
                 continue
+            if isinstance(s, ast.For):
+                from . import idioms as ID
+                red = ID.reduction_of(s)
+                if red is not None and red[0] in p.locals:
+                    # acc = REDUCE_op(seed, collection, key(ELEM)): a fold of the whole collection
+                    acc, op, key, x = red
+                    coll = self.tr(s.iter, p)
+                    q = p.clone()
+                    q.locals.pop(x, None)
+                    try:
+                        kv = self.tr(ID._rename(key, x, "ELEM"), q)
+                    except Untranslatable:
+                        kv = None
+                    if kv is not None:
+                        p.locals[acc] = sp.Function("REDUCE_" + op)(p.locals[acc], coll, kv)
+                        continue
             if isinstance(s, (ast.For, ast.While)):
                 if self.skip_loops:
                     # remember the state reached in front of the loop; names assigned inside become unknown afterwards
